@@ -130,9 +130,9 @@ def regions(desc, geo=None):
         if outside or par is None or par["n"] != geo["n"] or par["weights"] != geo["weights"]:
             out.add("F22")
     # U2: a Nest whose outer block holds a derived factor with a complex window.  The outer block's trials are held for
-    # the inner block's length, and so are the window's offsets and its start; `Spec` evaluates windows trial by trial
-    # and cannot judge derived levels there (DESIGN 3.2).  Sampler agreement (C07), the exact CNF correspondence (I8),
-    # exceptions and trial counts stay unmasked.
+    # the inner block's length, and so are the window's offsets and its start; `Spec` reads such windows over the
+    # factor's own trials (appliesG / matchingG, since round 9).  Only the mismatch checker's verdicts are still
+    # withheld there (DESIGN 3.2); everything else is judged.
     def _designs(b):
         if "design" in b:
             return set(b["design"])
@@ -193,10 +193,9 @@ def known_for(regs, prop, kind):
         ("F22", ("exhaust", "agree", "sound", "sat-exception:IndexError", "random-exception:IndexError", "count", "trialcount", "mismatch", "law", "geometry")),
         ("F19", ("exhaust", "agree", "sound:derived", "sat-exception:RuntimeError", "count")),
         ("U1", ("agree", "exhaust", "sound:constraint", "mismatch")),
-        ("U2", ("sound:derived", "sound:shape", "exhaust", "mismatch")),
+        ("U2", ("mismatch",)),
         ("F26", ("mismatch:KeyError",)),
         ("F30", ("mismatch:Sequential",)),
-        ("F32", ("random-exception:ValueError",)),
     ]
     for r, kinds in table:
         if r in regs and any(kind == k or kind.startswith(k + ":") or kind.startswith(k + "-") or kind.startswith(k) for k in kinds):
